@@ -267,3 +267,214 @@ pub fn span(rng: &mut Rng, len: usize) -> (usize, usize) {
         }
     }
 }
+
+// ------------------------------------------------------------ vector-shaped
+
+/// Haystack lengths around SIMD vector widths and loop boundaries.
+pub fn vec_lengths(thorough: bool) -> Vec<usize> {
+    let mut v: Vec<usize> = vec![];
+    let ranges: &[(usize, usize)] = &[
+        (0, 5),
+        (13, 21),
+        (29, 38),
+        (45, 51),
+        (61, 69),
+        (93, 99),
+        (125, 132),
+        (253, 260),
+    ];
+    for &(a, b) in ranges {
+        v.extend(a..=b);
+    }
+    if thorough {
+        v.extend([511, 512, 513, 1023, 1024, 1025, 4095, 4096, 4097]);
+    }
+    v
+}
+
+/// A haystack of exactly `len` bytes built from a filler strategy with true
+/// (and truncated / corrupted) pattern occurrences planted at offsets that
+/// matter to vector code: the very start, just around multiples of 16/32 and
+/// flush against the end.
+pub fn vec_haystack(rng: &mut Rng, pats: &[Vec<u8>], len: usize) -> Vec<u8> {
+    let used: Vec<bool> = {
+        let mut u = vec![false; 256];
+        for p in pats {
+            for &b in p {
+                u[b as usize] = true;
+                // also treat the other ASCII case as used
+                if b.is_ascii_alphabetic() {
+                    u[(b ^ 0x20) as usize] = true;
+                }
+            }
+        }
+        u
+    };
+    let firsts: Vec<u8> = pats.iter().filter_map(|p| p.first().copied()).collect();
+    let unused: Vec<u8> = (0..=255u8).filter(|&b| !used[b as usize]).collect();
+    let strategy = rng.below(5);
+    let mut h: Vec<u8> = Vec::with_capacity(len);
+    for _ in 0..len {
+        let b = match strategy {
+            0 => {
+                if unused.is_empty() {
+                    0xFE
+                } else {
+                    unused[0]
+                }
+            }
+            1 => {
+                // nybble sharing: same low nybble as a pattern byte, other high nybble
+                if firsts.is_empty() {
+                    b'q'
+                } else {
+                    let f = *rng.pick(&firsts);
+                    let cand = (f & 0x0F) | ((rng.below(16) as u8) << 4);
+                    cand
+                }
+            }
+            2 => {
+                if firsts.is_empty() {
+                    b'a'
+                } else {
+                    *rng.pick(&firsts)
+                }
+            }
+            3 => {
+                // mostly unused filler with a sprinkle of pattern bytes
+                if rng.chance(1, 6) && !pats.is_empty() {
+                    let p = rng.pick(pats);
+                    if p.is_empty() { b'x' } else { *rng.pick(p) }
+                } else if unused.is_empty() {
+                    0xFE
+                } else {
+                    *rng.pick(&unused)
+                }
+            }
+            _ => {
+                if firsts.is_empty() {
+                    b'z'
+                } else {
+                    let f = *rng.pick(&firsts);
+                    (f & 0xF0) | (rng.below(16) as u8)
+                }
+            }
+        };
+        h.push(b);
+    }
+    if pats.is_empty() || len == 0 {
+        return h;
+    }
+    let plant = rng.below(4); // how many occurrences
+    for _ in 0..plant {
+        let p = rng.pick(pats).clone();
+        if p.is_empty() || p.len() > len {
+            // plant a truncated copy flush against the end instead
+            if !p.is_empty() {
+                let k = len.min(p.len() - 1);
+                let start = len - k;
+                h[start..].copy_from_slice(&p[..k]);
+            }
+            continue;
+        }
+        let maxoff = len - p.len();
+        let cands: [usize; 12] = [
+            0,
+            1,
+            maxoff,
+            maxoff.saturating_sub(1),
+            15usize.min(maxoff),
+            16usize.min(maxoff),
+            17usize.min(maxoff),
+            31usize.min(maxoff),
+            32usize.min(maxoff),
+            33usize.min(maxoff),
+            rng.range(0, maxoff),
+            rng.range(0, maxoff),
+        ];
+        let off = (*rng.pick(&cands)).min(maxoff);
+        h[off..off + p.len()].copy_from_slice(&p);
+        if rng.chance(1, 5) {
+            // corrupt one byte of it
+            let i = off + rng.below(p.len());
+            h[i] = h[i].wrapping_add(1);
+        }
+    }
+    if rng.chance(1, 4) {
+        // truncated pattern flush against the end
+        let p = rng.pick(pats);
+        if p.len() >= 2 {
+            let k = rng.range(1, (p.len() - 1).min(len));
+            h[len - k..].copy_from_slice(&p[..k]);
+        }
+    }
+    h
+}
+
+/// Spans for vector-shaped haystacks: full, tails that leave fewer bytes
+/// than a vector, heads, and a random one.
+pub fn vec_spans(rng: &mut Rng, len: usize) -> Vec<(usize, usize)> {
+    let mut v = vec![(0, len)];
+    if len > 0 {
+        v.push((rng.range(0, len), len));
+        v.push((0, rng.range(0, len)));
+        let s = rng.range(0, len);
+        v.push((s, rng.range(s, len)));
+        if len > 17 {
+            v.push((len - 17, len));
+            v.push((1, len - 1));
+        }
+    }
+    v
+}
+
+/// Pattern lists for the packed searchers: 1..=128 non-empty patterns, minimum
+/// length 1..=4+, shared prefixes / low nybbles so that buckets and
+/// fingerprints collide.
+pub fn packed_patterns(rng: &mut Rng) -> Vec<Vec<u8>> {
+    let n = match rng.below(10) {
+        0 => 1,
+        1 | 2 | 3 => rng.range(2, 8),
+        4 | 5 => rng.range(9, 17),
+        6 => rng.range(17, 33),
+        7 => rng.range(33, 64),
+        8 => rng.range(65, 128),
+        _ => rng.range(2, 5),
+    };
+    let minlen = *rng.pick(&[1usize, 2, 3, 4, 4, 5, 7]);
+    let maxlen = minlen + rng.below(5);
+    let alpha: Vec<u8> = match rng.below(4) {
+        0 => b"ab".to_vec(),
+        1 => b"abcdefgh".to_vec(),
+        // bytes sharing low nybble 1: 'a' 'q' 'A' '1' 'Q' and high bytes
+        2 => vec![b'a', b'q', b'A', b'1', b'Q', 0x81, 0xF1],
+        _ => (0..rng.range(3, 20)).map(|_| rng.below(256) as u8).collect(),
+    };
+    let mut pats: Vec<Vec<u8>> = vec![];
+    let mut guard = 0;
+    while pats.len() < n && guard < 10 * n + 50 {
+        guard += 1;
+        let len = rng.range(minlen, maxlen);
+        let p = if !pats.is_empty() && rng.chance(1, 3) {
+            // share a prefix with an existing pattern
+            let src = rng.pick(&pats).clone();
+            let keep = rng.range(1, src.len());
+            let mut q = src[..keep.min(len)].to_vec();
+            while q.len() < len {
+                q.push(*rng.pick(&alpha));
+            }
+            q
+        } else {
+            rand_string(rng, &alpha, len)
+        };
+        // duplicates are allowed but kept rare
+        if pats.contains(&p) && !rng.chance(1, 10) {
+            continue;
+        }
+        pats.push(p);
+    }
+    if pats.is_empty() {
+        pats.push(rand_string(rng, &alpha, minlen));
+    }
+    pats
+}
